@@ -1206,4 +1206,92 @@ theorem runEvents_resyncs {s : State} {a : Abs} (h : Sim s a) (events : List Eve
       rw [hlb] at i1 i3
       exact ⟨i1, i2, i3⟩
 
+
+/-! ## C14: requests with an authentication pick; probes that change nothing -/
+
+/-- with its own cursors, `PickOne` is invisible to the policies: the forwarded picks are the plain `popMany` -/
+theorem runReqs_own (eps : List EP) (lb lbA : List (Key × Nat)) (reqs : List Req) :
+    runReqs true eps lb lbA reqs = (popMany eps lb (reqs.map (·.us))).1 := by
+  induction reqs generalizing lb lbA with
+  | nil => simp [runReqs, popMany]
+  | cons r rest ih =>
+    cases h : r.authOrder with
+    | none => simp [runReqs, h, popMany, ih]
+    | some order => simp [runReqs, h, popMany, ih]
+
+/-- requests that involve no `PickOne` are forwarded as plain `popMany`, whatever `PickOne` would do -/
+theorem runReqs_noAuth (own : Bool) (eps : List EP) (lb lbA : List (Key × Nat)) (reqs : List Req)
+    (h : ∀ r, r ∈ reqs → r.authOrder = none) :
+    runReqs own eps lb lbA reqs = (popMany eps lb (reqs.map (·.us))).1 := by
+  induction reqs generalizing lb lbA with
+  | nil => simp [runReqs, popMany]
+  | cons r rest ih =>
+    have hr := h r (by simp)
+    simp only [runReqs, hr, List.map_cons, popMany]
+    rw [ih _ _ (fun r' hr' => h r' (by simp [hr']))]
+
+/-- ops that are not a pick and not a Sync never touch a cursor -/
+theorem step_lb_of_status_op (s : State) (op : Op)
+    (h : match op with | .updateStatus _ _ | .trigger _ | .ensure _ | .probeFire _ _ => True | _ => False) :
+    (step s op).1.lb = s.lb := by
+  cases op with
+  | updateStatus n hv => rfl
+  | trigger n => rfl
+  | ensure n => rfl
+  | probeFire n hv =>
+    simp only [step]
+    cases load s.eps n with
+    | none => rfl
+    | some e => by_cases hc : e.canFire = true <;> simp [hc]
+  | sync _ _ => cases h
+  | matchAttrs _ _ => cases h
+  | pop _ => cases h
+
+theorem readyKey_updateAt (eps : List EP) (n : Name) (f : EP → EP)
+    (hf : ∀ e, (f e).name = e.name ∧ (f e).gen = e.gen)
+    (hr : ∀ e, load eps n = some e → (f e).isReady = e.isReady) (us : List Name) :
+    (readyList (updateAt eps n f) us).map EP.id = (readyList eps us).map EP.id := by
+  unfold readyList
+  induction us with
+  | nil => rfl
+  | cons m rest ih =>
+    simp only [List.filterMap_cons]
+    rw [load_updateAt _ _ _ _ (fun e => (hf e).1)]
+    by_cases hm : m = n
+    · subst hm
+      simp only [if_true]
+      cases hl : load eps m with
+      | none => simpa using ih
+      | some e =>
+        simp only [Option.map_some, hr e hl]
+        by_cases hre : e.isReady = true
+        · simp only [hre, if_true, List.map_cons, ih]
+          simp [EP.id, (hf e).1, (hf e).2]
+        · simp only [hre]; exact ih
+    · simp only [hm, if_false]
+      cases hl : load eps m with
+      | none => simpa using ih
+      | some e =>
+        simp only
+        by_cases hre : e.isReady = true
+        · simp only [hre, if_true, List.map_cons, ih]
+        · simp only [hre]; exact ih
+
+/-- a probe whose report repeats the endpoint's current health changes no ordered ready list, hence no cursor key -/
+theorem probe_same_health_keeps_keys (s : State) (n : Name) (hv : Bool)
+    (hsame : ∀ e, load s.eps n = some e → e.healthy = hv) (us : List Name) :
+    (readyList (step s (.probeFire n hv)).1.eps us).map EP.id = (readyList s.eps us).map EP.id := by
+  simp only [step]
+  cases hl : load s.eps n with
+  | none => rfl
+  | some e =>
+    simp only
+    by_cases hc : e.canFire = true
+    · simp only [hc, if_true]
+      apply readyKey_updateAt _ _ _ (fun e' => ⟨(fire_facts e' hv).1, (fire_facts e' hv).2.1⟩)
+      intro e' hl'
+      rw [hl] at hl'; injection hl' with hl'; subst hl'
+      simp [EP.isReady, (fire_facts e hv).2.2.1, (fire_facts e hv).2.2.2.1, hsame e hl]
+    · simp [hc]
+
 end KG.Lemmas.Endpoints
